@@ -129,7 +129,8 @@ Fixpoint deliver (c : cb) (ls : list logmsg) (k : list event) : list event :=
   | m :: r => let '(e, go) := log_event c m in if go then e :: deliver c r k else [e]
   end.
 
-Inductive rd := RdData (b : batch) | RdHdr (h : Z) | RdTok (t : nat) | RdEos | RdStop.
+(* RdFail e: an RpcError e is being raised (not yet visible to the caller) ; RdStop: callback raised / blocked *)
+Inductive rd := RdData (b : batch) | RdHdr (h : Z) | RdTok (t : nat) | RdEos | RdFail (e : event) | RdStop.
 
 (* _read_batch_with_log_check over a FIFO of frames: events, outcome, unread rest.
    An empty queue means the client waits for bytes the server will never write: EBlocked. *)
@@ -138,9 +139,10 @@ Fixpoint cli_read (c : cb) (q : list frame) : list event * rd * list frame :=
   | [] => ([EBlocked], RdStop, [])
   | FLog m :: r =>
       let '(e, go) := log_event c m in
-      if go then let '(es, o, r') := cli_read c r in (e :: es, o, r') else ([e], RdStop, r)
+      if go then let '(es, o, r') := cli_read c r in (e :: es, o, r')
+      else match lvl m with EXC => ([], RdFail e, r) | _ => ([e], RdStop, r) end
   | FData b :: r => ([], RdData b, r)
-  | FErr e :: r => ([err_event e], RdStop, r)
+  | FErr e :: r => ([], RdFail (err_event e), r)
   | FHdr h :: r => ([], RdHdr h, r)
   | FToken t :: r => ([], RdTok t, r)
   | FEos :: r => ([], RdEos, r)
@@ -176,7 +178,7 @@ Fixpoint obs_prod (c : cb) (sts : list step) (n : option nat) : list event :=
   | x :: r =>
       match exec_step true (Some x) with
       | SErr e => [err_event e]
-      | SFrames _ true => deliver c (slogs x) (match emit x with Some b => [EBatch b; EDone] | None => [EDone] end)
+      | SFrames _ true => deliver c (slogs x) (match emit x with Some b => EBatch b :: (if is_zero (opred n) then [] else [EDone]) | None => [EDone] end)
       | SFrames _ false => deliver c (slogs x) (match emit x with Some b => EBatch b :: obs_prod c r (opred n) | None => [] end)
       end
   end.
@@ -242,39 +244,41 @@ Definition srv_init (sp : stream_prog) (h : bool) : list frame * bool :=
   end.
 
 (* client session state after the scripted reads *)
-Inductive sess := Live (q : list frame) | Over.
+Inductive sess := Live (q : list frame) (alive : bool) | Over.
 
 Fixpoint pipe_prod (c : cb) (alive : bool) (sts : list step) (n : option nat) (q : list frame) : list event * sess :=
-  if is_zero n then ([], Live q) else
-  let '(fs, _) := if alive then srv_tick true (hd_error sts) else ([], true) in
+  if is_zero n then ([], Live q alive) else
+  let '(fs, ended) := if alive then srv_tick true (hd_error sts) else ([], true) in
   let '(es, o, r) := cli_read c (q ++ fs) in
   match o with
   | RdData b =>
       match sts with
       | [] => (es ++ [EBatch b], Over)
-      | _ :: sts' => let '(es', z) := pipe_prod c alive sts' (opred n) r in (es ++ EBatch b :: es', z)
+      | _ :: sts' => let '(es', z) := pipe_prod c (alive && negb ended) sts' (opred n) r in (es ++ EBatch b :: es', z)
       end
   | RdEos => (es ++ [EDone], Over)        (* tick(): StopIteration -> close() ; nothing left to drain *)
+  | RdFail e => (es ++ cli_drain c (r ++ (if alive && negb ended then [FEos] else [])) ++ [e], Over)   (* except RpcError: self.close(); raise *)
   | _ => (es, Over)
   end.
 
 Fixpoint pipe_exch (c : cb) (alive : bool) (sts : list step) (n : nat) (q : list frame) : list event * sess :=
   match n with
-  | O => ([], Live q)
+  | O => ([], Live q alive)
   | S n' =>
-      let '(fs, _) := if alive then srv_tick false (hd_error sts) else ([], true) in
+      let '(fs, ended) := if alive then srv_tick false (hd_error sts) else ([], true) in
       let '(es, o, r) := cli_read c (q ++ fs) in
       match o with
-      | RdData b => let '(es', z) := pipe_exch c alive (tl sts) n' r in (es ++ EBatch b :: es', z)
+      | RdData b => let '(es', z) := pipe_exch c (alive && negb ended) (tl sts) n' r in (es ++ EBatch b :: es', z)
+      | RdFail e => (es ++ cli_drain c (r ++ (if alive && negb ended then [FEos] else [])) ++ [e], Over)
       | _ => (es, Over)
       end
   end.
 
 (* close()/cancel(): the client ends its input stream (cancel: after a cancel batch; the server runs on_cancel
    instead of process), a live server leaves the loop and closes the output stream; the client drains. *)
-Definition pipe_after (c : cb) (alive : bool) (a : after) (z : sess) : list event :=
+Definition pipe_after (c : cb) (a : after) (z : sess) : list event :=
   match z, a with
-  | Live q, AClose | Live q, ACancel => cli_drain c (q ++ (if alive then [FEos] else []))
+  | Live q alive, AClose | Live q alive, ACancel => cli_drain c (q ++ (if alive then [FEos] else []))
   | _, _ => []
   end.
 
@@ -285,11 +289,12 @@ Definition pipe_stream (sp : stream_prog) (h : bool) (c : cb) (a : after)
     (* _read_stream_header at call time *)
     let '(es, o, r) := cli_read c q0 in
     match o with
-    | RdHdr v => let '(es', z) := body alive (skip_eos r) in es ++ EHeader v :: es' ++ pipe_after c alive a z
+    | RdHdr v => let '(es', z) := body alive (skip_eos r) in es ++ EHeader v :: es' ++ pipe_after c a z
+    | RdFail e => es ++ [e]
     | _ => es
     end
   else
-    let '(es', z) := body alive q0 in es' ++ pipe_after c alive a z.
+    let '(es', z) := body alive q0 in es' ++ pipe_after c a z.
 
 (* terminal events end the observation *)
 Definition terminal (e : event) : bool := match e with EError _ _ | ECbRaised | EBlocked => true | _ => false end.
@@ -303,7 +308,7 @@ Definition run_pipe (p : prog) (sc : script) : list event :=
       (* _serve_unary: the sink is switched to direct writing before the method runs *)
       let fs := map FLog (ulogs u) ++ [match ures_of u with UOk v => FData {| rows := 1; tag := Z.to_N v; meta := [] |} | URaise e => FErr e end; FEos] in
       let '(es, o, _) := cli_read c fs in
-      match o, ures_of u with RdData _, UOk v => es ++ [EResult v] | _, _ => es end
+      match o, ures_of u with RdData _, UOk v => es ++ [EResult v] | RdFail e, _ => es ++ [e] | _, _ => es end
   | PStream sp, SIter h k a c =>
       pipe_stream sp h c a (fun alive q => pipe_prod c alive (steps sp) (match a with AStop => None | _ => Some k end) q)
   | PStream sp, SExch h n a c =>
@@ -374,6 +379,7 @@ Fixpoint http_exch (cfg : httpcfg) (c : cb) (sts : list step) (n : nat) : list e
           else let '(es, o, _) := cli_read c (fs ++ [FEos]) in
                match o with
                | RdData b => es ++ EBatch b :: http_exch cfg c (tl sts) n'
+               | RdFail e => es ++ [e]                     (* HttpStreamSession.exchange: _drain_stream, no dispatch *)
                | _ => es
                end
       end
@@ -387,7 +393,7 @@ Definition run_http (cfg : httpcfg) (p : prog) (sc : script) : list event :=
       let ok := match ures_of u with UOk _ => true | URaise _ => false end in
       let fs' := if ok && over_cap cfg (add_sizes cfg (base cfg) fs) then [FErr cap_exn] else fs in
       let '(es, o, _) := cli_read c (fs' ++ [FEos]) in
-      match o, ures_of u with RdData _, UOk v => es ++ [EResult v] | _, _ => es end
+      match o, ures_of u with RdData _, UOk v => es ++ [EResult v] | RdFail e, _ => es ++ [e] | _, _ => es end
   | PStream sp, SIter h k a c =>
       match ires sp with
       | InitRaise e => [err_event e]                       (* _RpcHttpError: one error stream, sink logs dropped *)
@@ -451,3 +457,54 @@ Definition records (sc : script) : bool := match sc with SUnary CbRecord | SIter
 (* for correspondence *)
 Definition run_all (cfg : httpcfg) (x : prog * script) : list event * list event * list event :=
   (observe (fst x) (snd x), run_pipe (fst x) (snd x), run_http cfg (fst x) (snd x)).
+
+(* ------------------------------------------------------------------ side conditions of the partial theorems *)
+Definition is_exc (m : logmsg) : bool := match lvl m with EXC => true | _ => false end.
+Definition quiet (ls : list logmsg) : bool := forallb (fun m => negb (is_exc m)) ls.
+(* no client-directed log at EXCEPTION level (such a log is turned into an RpcError by the client) *)
+Definition no_exc_logs (p : prog) : bool :=
+  match p with
+  | PUnary u => quiet (ulogs u)
+  | PStream sp => quiet (ilogs sp) && forallb (fun x => quiet (slogs x)) (steps sp)
+  end.
+
+(* max_response_bytes is a HARD cap for unary and exchange responses: [fits] = no successful response exceeds it *)
+Fixpoint exch_fits (cfg : httpcfg) (sts : list step) (n : nat) : bool :=
+  match n with
+  | O => true
+  | S n' =>
+      match exec_step false (hd_error sts) with
+      | SErr _ => true
+      | SFrames fs _ => negb (over_cap cfg (add_sizes cfg (base cfg) fs)) && exch_fits cfg (tl sts) n'
+      end
+  end.
+Definition fits (cfg : httpcfg) (p : prog) (sc : script) : bool :=
+  match p, sc with
+  | PUnary u, SUnary _ =>
+      match ures_of u with
+      | UOk v => negb (over_cap cfg (add_sizes cfg (base cfg) (map FLog (ulogs u) ++ [FData {| rows := 1; tag := Z.to_N v; meta := [] |}])))
+      | URaise _ => true
+      end
+  | PStream sp, SExch _ n _ _ => exch_fits cfg (steps sp) n
+  | _, _ => true
+  end.
+
+(* the first HTTP response of a producer (init logs + first turn) carries no error: the session is returned *)
+Definition first_turn_ok (cfg : httpcfg) (p : prog) (sc : script) : bool :=
+  match p, sc with
+  | PStream sp, SIter h _ _ c =>
+      match snd (http_parse_init c (map FLog (ilogs sp) ++ http_frames cfg (steps sp) 0 (add_sizes cfg (base cfg) (if h then [] else map FLog (ilogs sp)))) []) with
+      | Some _ => true
+      | None => false
+      end
+  | _, _ => true
+  end.
+
+(* the socket client reads at least one response, or ends the stream with close/cancel (whose drain delivers the
+   buffered init logs) -- otherwise nothing the server wrote is ever looked at *)
+Definition closes (sc : script) : bool :=
+  match sc with
+  | SIter _ _ AClose _ | SIter _ _ ACancel _ | SExch _ _ AClose _ | SExch _ _ ACancel _ => true
+  | _ => false
+  end.
+Definition pipe_reads (p : prog) (sc : script) : bool := reads_something sc || (negb (init_raises p) && closes sc).
